@@ -67,7 +67,8 @@ def document(draw):
     broken = []
     for pi in range(draw(st.integers(1, 3))):
         has_var = draw(st.booleans())
-        path = f"/r{pi}" + ("/{id}" if has_var else "")
+        # `~` and `/` are the two characters JSON pointers escape: literal `~1` / `~0` in a path must survive by-reference lookups
+        path = draw(st.sampled_from(["/r{}", "/r{}", "/v~1/r{}", "/t~0/r{}", "/a~b{}", "/files/PROGRA~1/r{}"])).format(pi) + ("/{id}" if has_var else "")
         item: dict = {}
         shared = draw(st.lists(param(), max_size=2))
         if has_var:
@@ -96,7 +97,7 @@ def document(draw):
                 op["parameters"] = [maybe_ref(p) for p in local2]
             if m != "get" and draw(st.booleans()):
                 mts = draw(st.lists(st.sampled_from(["application/json", "text/plain", "application/xml"]), min_size=1, max_size=2, unique=True))
-                op["requestBody"] = {"content": {mt: {"schema": {"type": "object", "properties": {"on": {"type": "boolean"}, "no": {"type": "string"}}}} for mt in mts}}
+                op["requestBody"] = {"content": {mt: {"schema": {"type": "object", "properties": {"on": {"type": "boolean"}, "no": {"type": "string"}, "1.5": {"type": "integer"}, "1e3": {"type": "integer"}, "null": {"type": "string"}, "~": {"type": "string"}, "2020-01-01": {"type": "string"}}, "required": ["1.5"]}} for mt in mts}}
             if draw(st.integers(0, 7)) == 0:
                 op.setdefault("parameters", []).append({"$ref": "#/components/parameters/DoesNotExist"})
                 broken.append([path, m])
@@ -182,7 +183,7 @@ def yaml_human(node, indent=0) -> str:
         lines = []
         for k, v in node.items():
             key = str(k)
-            plain = PLAIN_KEY.match(key) or re.fullmatch(r"\d+(\.\d+)?", key) or key.lower() in AMBIGUOUS_PLAIN or DATE_LIKE.match(key)
+            plain = PLAIN_KEY.match(key) or re.fullmatch(r"[-+]?(\d+\.?\d*|\.\d+)([eE][-+]?\d+)?", key) or key.lower() in AMBIGUOUS_PLAIN or DATE_LIKE.match(key)
             ktext = key if plain and not key.startswith("{") else json.dumps(key)
             if isinstance(v, (dict, list)) and v:
                 lines.append(f"{pad}{ktext}:\n{yaml_human(v, indent + 1)}")
